@@ -985,8 +985,13 @@ std::string check(const Case& c, vf::Ctx& ctx)
     }
     if (c.mode != "q" && c.elem)
         ctx.tag("o:element-without-assignment");
+#ifdef VF_NO_OPTIONAL_NOASSIGN
+    // this tree's optional does not compile for such a type (compile probe): the ordinary element instead
+    return c.mode == "q" ? check_quaint(c, ctx) : check_optional<tr::Tracked>(c, ctx);
+#else
     return c.mode == "q" ? check_quaint(c, ctx)
                          : c.elem ? check_optional<NoAssign>(c, ctx) : check_optional<tr::Tracked>(c, ctx);
+#endif
 }
 } // namespace h
 
